@@ -32,6 +32,10 @@ Verdict(r) ==
          ELSE IF r.eq # (r.a = r.b) THEN "key-id-equality-disagrees-with-bytes"
          ELSE IF r.a = r.b /\ ~r.hash_eq THEN "equal-key-ids-hash-differently"
          ELSE IF ~r.bytes_back THEN "key-id-bytes-not-preserved" ELSE "ok"
+    [] r.fn = "idparse" ->
+         IF r.panic THEN "key-id-parser-panicked"
+         ELSE IF r.ok # (r.len = 33) THEN (IF r.ok THEN "key-id-of-the-wrong-length-accepted" ELSE "33-byte-key-id-rejected")
+         ELSE IF r.ok /\ ~(r.text_back /\ r.bytes_back) THEN "key-id-does-not-round-trip-through-text" ELSE "ok"
     [] r.fn = "inc128" -> IF r.out = Inc128(r.x, r.j) THEN "ok" ELSE "evaluator-counter-arithmetic-differs-from-Ctr"
     [] r.fn = "term" ->
          IF r.rel # Prescribed(r) THEN "wrong-relation-reported"
